@@ -11,6 +11,7 @@
 mod analysis;
 mod derived;
 mod desc;
+mod extrap;
 mod gen;
 mod harness;
 mod json;
@@ -114,6 +115,7 @@ fn main() {
                 "C09" => supplysim::run_c09(&opt),
                 "C10" => streams::run_c10(&opt),
                 "C12" => derived::run_c12(&opt),
+                "C13" => extrap::run_c13(&opt),
                 other => {
                     eprintln!("HARNESS-ERROR: no check for property {}", other);
                     2
@@ -141,6 +143,7 @@ fn main() {
                 "supply" => supplysim::replay_supply(path, &text),
                 "stream" => streams::replay_stream(path, &text),
                 "derived" => derived::replay_derived(path, &text),
+                "extrap" => extrap::replay_extrap(path, &text),
                 other => {
                     eprintln!("HARNESS-ERROR: unknown replay engine '{}'", other);
                     2
